@@ -301,7 +301,8 @@ def recover_guards(ctx, rule):
     if guard:
         key = guard[0][0].args[1]
         k = key
-        while k.op in ("refv", "conv", "deref") or (k.op == "copied" and True):
+        while k.op in ("refv", "conv", "deref", "collected", "as_array") or (k.op == "copied" and True) or \
+                (k.op == "field" and k.args[1] == 0 and k.args[0].op == "fp_to_repr"):     # FpRepr(bytes).0: the same 24 bytes
             k = k.args[0]
         whole = k.op == "fp_to_repr"
         ctx.add(rule, root + "#key-is-x-encoding", whole,
